@@ -35,3 +35,11 @@ reg("C08", "exploration",
     "Single-fault injection: texts the reference accepts get exactly one deviation of the kinds the statement lists at a random position/depth (both spellings of empty sections), are split into up to 3 included resources (same/sub/parent directory) and loaded three ways (in-memory resources with URLs, real files through the real openResource, a bare file object without URL); the raised error must carry the line and URL the reference attributes the fault to; conversion errors also the offending text and original ValueError.",
     "Trusted: line attribution of zcv/refload.py (single pass in reading order). No line is promised for top-level missing items, section-datatype failures, missing/cyclic include targets and bad %import.",
     "random single-fault injection at every kind/position + reference culprit-line model (differential oracle)")
+reg("C06", "exploration",
+    "Metamorphic check with real files: texts of the C01 family (valid and invalid, with %define/$ flows, some with unbalanced nesting) are split by moving 1..3 balanced line ranges (nested cuts allowed) into files in the same, a sub- or the parent directory; loading the split version by path must give the digest-equal value tree or also be rejected; unbalanced cuts of accepted texts must be rejected.",
+    "No reference model: two loads of the real code are compared. Only the fact of rejection is compared, not the error.",
+    "random generation + metamorphic relation (textual inclusion) over real include files")
+reg("C15", "exploration",
+    "Metamorphic check: up to 5 composed layout rewrites (indentation incl. Unicode blanks, trailing whitespace, blank/comment lines, letter case of types/names/defined names/references/keys, both spellings of empty sections, swaps of adjacent key lines and of key lines with section blocks) applied to C01 texts and to texts for the shipped logger and basic-mapping components must leave the value tree or the fact of rejection unchanged.",
+    "No reference model. Key case is varied only where every key type of the schema is case-insensitive; lines are never moved across directives; logger factories are compared by configuration, not called.",
+    "random generation + metamorphic relation (layout rewrites)")
